@@ -49,7 +49,7 @@ def split(idx, na):
     return tuple(int(v) for v in idx[:na]), tuple(int(v) for v in idx[na:])
 
 
-def make_component(na: int, nd: int, ns: int, limits: tuple, kpl: int = 1, name='c', fail_alpha=None):
+def make_component(na: int, nd: int, ns: int, limits: tuple, kpl: int = 1, name='c', fail_alpha=None, **extra):
     """A real Component with `na` model-, `nd` data- and `ns` surrogate-fidelity dimensions and per-dimension limits.
     The model is transcendental and fidelity dependent so that the interpolants of different indices differ."""
     assert len(limits) == na + nd + ns and nd >= 1
@@ -74,7 +74,8 @@ def make_component(na: int, nd: int, ns: int, limits: tuple, kpl: int = 1, name=
                      vectorized=fail_alpha is None,
                      model_fidelity=tuple(limits[:na]), data_fidelity=tuple(limits[na:na + nd]),
                      surrogate_fidelity=tuple(limits[na + nd:]),
-                     training_data=SparseGrid(knots_per_level=kpl, opt_args={'locally_biased': False, 'maxfun': 60}))
+                     **{'training_data': SparseGrid(knots_per_level=kpl, opt_args={'locally_biased': False, 'maxfun': 60}),
+                        **extra})
     return comp
 
 
